@@ -111,18 +111,23 @@ Section Closure.
     intros Ha. unfold add_lowercase. rewrite Ha. unfold lowered, lower_single, is_multi. reflexivity.
   Qed.
 
-  (* case_equiv_closed, general form: any class over the good part of the table *)
-  Theorem ci_closure c :
-    anything c = false -> sub c = None -> wf_ranges (ranges c) ->
+  (* case_equiv_closed, general form: any class over the good part of the table; the subtracted
+     class is expanded by the recursive call and passed through *)
+  Theorem ci_closure_sub c sb' :
+    anything c = false -> wf_ranges (ranges c) ->
     (forall x, mem (ranges c) x = true -> In x good_dom) ->
+    match sub c with
+    | None => sb' = None
+    | Some s => exists s', add_case_equivalences cat_in simple_fold orbit_fuel s = Ok s' /\ sb' = Some s'
+    end ->
     exists c',
       add_case_equivalences cat_in simple_fold orbit_fuel (add_lowercase cat_in to_lower c) = Ok c' /\
-      neg c' = neg c /\ cats c' = cats c /\ sub c' = None /\ anything c' = false /\ ascii c' = ascii c /\
+      neg c' = neg c /\ cats c' = cats c /\ sub c' = sb' /\ anything c' = false /\ ascii c' = ascii c /\
       canonical_ranges (ranges c') /\ wf_ranges (ranges c') /\
       forall z, In z dom_t ->
         mem (ranges c') z = existsb (fun x => mem (ranges c) x) (orbit simple_fold orbit_fuel z).
   Proof.
-    intros Ha Hs Hw Hg. set (R := ranges c) in *.
+    intros Ha Hw Hg Hsub. set (R := ranges c) in *.
     pose proof (lowered_wf R Hw Hg) as Lw.
     rewrite (add_lowercase_unfold c Ha). fold R.
     assert (Hb1 : forall y, mem (lowered R) y = true -> y < max_rune - 1).
@@ -133,9 +138,15 @@ Section Closure.
     assert (W1 : wf_ranges R1) by (apply merged_wf; exact Lw).
     destruct (equivalences_of_ranges_spec cat_in simple_fold to_lower agree R1) as (T & HT & HTs).
     { intros x Hx. rewrite M1 in Hx. apply (lowered_in_dom R Hw Hg x Hx). }
-    destruct c as [rs cs sb ng an asc]. cbn [ranges sub anything neg cats ascii] in *. subst sb an.
-    unfold set_ranges; cbn [ranges cats sub neg anything ascii]. cbn [add_case_equivalences bind]. rewrite HT. cbn [bind].
-    set (c2 := Cls (R1 ++ map (fun x : Z => (x, x)) T) cs None ng false asc).
+    destruct c as [rs cs sb ng an asc]. cbn [ranges sub anything neg cats ascii] in *. subst an.
+    unfold set_ranges; cbn [ranges cats sub neg anything ascii]. cbn [add_case_equivalences].
+    assert (Hsb : match sb with
+                  | Some s => do s' <- add_case_equivalences cat_in simple_fold orbit_fuel s ; Ok (Some s')
+                  | None => Ok None
+                  end = Ok sb').
+    { destruct sb as [s|]; [destruct Hsub as (s' & H1 & ->); rewrite H1; reflexivity|subst sb'; reflexivity]. }
+    rewrite Hsb. cbn [bind]. rewrite HT. cbn [bind].
+    set (c2 := Cls (R1 ++ map (fun x : Z => (x, x)) T) cs sb' ng false asc).
     assert (InT : forall z, In z T -> In z dom_t).
     { intros z Hz. apply HTs in Hz. destruct Hz as (x & Hx & Hz). rewrite M1 in Hx.
       apply (orb_in_dom x z); [apply (lowered_in_dom R Hw Hg x Hx)|]. rewrite orb_unfold. right.
@@ -176,6 +187,19 @@ Section Closure.
       rewrite <- M1 in Hy.
       rewrite orb_unfold in Hzy. destruct Hzy as [<-|Hzy]; [left; exact Hy|].
       right. apply mem_singles. apply HTs. exists y. split; [exact Hy|]. rewrite orb_unfold. exact Hzy.
+  Qed.
+
+  Theorem ci_closure c :
+    anything c = false -> sub c = None -> wf_ranges (ranges c) ->
+    (forall x, mem (ranges c) x = true -> In x good_dom) ->
+    exists c',
+      add_case_equivalences cat_in simple_fold orbit_fuel (add_lowercase cat_in to_lower c) = Ok c' /\
+      neg c' = neg c /\ cats c' = cats c /\ sub c' = None /\ anything c' = false /\ ascii c' = ascii c /\
+      canonical_ranges (ranges c') /\ wf_ranges (ranges c') /\
+      forall z, In z dom_t ->
+        mem (ranges c') z = existsb (fun x => mem (ranges c) x) (orbit simple_fold orbit_fuel z).
+  Proof.
+    intros Ha Hs Hw Hg. apply ci_closure_sub; auto. rewrite Hs. reflexivity.
   Qed.
 
 End Closure.
